@@ -508,6 +508,68 @@ fn nested<const M: usize, const MH: usize>(t: &[u8], heights: [usize; 4], budget
     core::mem::forget(it);
     core::mem::forget(sl);
 }
+/// The same with CONCRETE keys (the symbolic-key queries above do not finish): the shape of
+/// the list is then concrete for the solver, only the interference choices and the
+/// nesting are symbolic.  `PRE` keys are inserted first without interference.
+fn nested_concrete<const M: usize, const P: usize>(t: &[u8], pre: [u8; P], keys: [u8; M], heights: [usize; 8], budget: usize) {
+    let mut t = Tape::new(t);
+    activate(&heights);
+    let sl: SL = SkipList::default();
+    let mut i = 0;
+    while i < P {
+        sl.insert(pre[i], pre[i] ^ 0x5a);
+        let c = ctl();
+        c.done[c.ndone] = pre[i];
+        c.ndone += 1;
+        i += 1;
+    }
+    {
+        let c = ctl();
+        let mut i = 0;
+        while i < 8 {
+            c.choices[i] = t.u8();
+            i += 1;
+        }
+        let mut i = 0;
+        while i < M {
+            c.keys[i] = keys[i];
+            i += 1;
+        }
+        c.kp = 1;
+        c.budget = budget;
+        c.list = &sl as *const SL as *const ();
+    }
+    sl.insert(keys[0], keys[0] ^ 0x5a);
+    {
+        let c = ctl();
+        c.done[c.ndone] = keys[0];
+        c.ndone += 1;
+        c.budget = 0;
+    }
+    loop {
+        let c = ctl();
+        if c.kp >= M {
+            break;
+        }
+        let k = c.keys[c.kp];
+        c.kp += 1;
+        sl.insert(k, k ^ 0x5a);
+        let c = ctl();
+        c.done[c.ndone] = k;
+        c.ndone += 1;
+    }
+    assert!(ctl().ndone == M + P, "every insert completed");
+    reader_checks(&sl);
+    vcover!(ctl().nested_ran >= 1, "a nested insert ran inside the outer insert (the CAS fails and is retried)");
+    deactivate();
+    core::mem::forget(sl);
+}
+// outer 5 then nested 7 (lands between the outer key's predecessor and its observed successor)
+harness!(nested_c_5_7, 8, |t| { nested_concrete::<2, 0>(t, [], [5, 7], [1; 8], 1) });
+harness!(nested_c_7_5, 8, |t| { nested_concrete::<2, 0>(t, [], [7, 5], [1; 8], 1) });
+harness!(nested_c_5_7_before_9, 8, |t| { nested_concrete::<2, 1>(t, [9], [5, 7], [1; 8], 1) });
+harness!(nested_c_5_7_h2, 8, |t| { nested_concrete::<2, 1>(t, [9], [5, 7], [1, 2, 2, 1, 1, 1, 1, 1], 1) });
+
 harness!(nested2_mh1, 10, |t| { nested::<2, 1>(t, [1, 1, 1, 1], 1) });
 harness!(nested3_mh1, 11, |t| { nested::<3, 1>(t, [1, 1, 1, 1], 2) });
 harness!(nested2_h11, 10, |t| { nested::<2, 2>(t, [1, 1, 1, 1], 1) });
@@ -521,5 +583,5 @@ harness_list!(
     s2_h11_first_prev_next, s2_h22_last_next_prev, s2_h11_forward, s2_h21_backward, s3_h111_member, s3_h121_seek, s3_h212_seek,
     iter_after_drop_h11_seek_next, iter_after_drop_h21_seek_prev, iter_after_drop_h12_last_prev,
     iter_clone_after_drop,
-    nested2_mh1, nested3_mh1, nested2_h11, nested2_h21,
+    nested_c_5_7, nested_c_7_5, nested_c_5_7_before_9, nested_c_5_7_h2, nested2_mh1, nested3_mh1, nested2_h11, nested2_h21,
 );
